@@ -610,6 +610,22 @@ pub fn explore(plan: &Plan, sum: &mut Summary, run: u64, tier: &str, only: Optio
             let first_judged = judge(plan, &recs, &journal, &times, i, &v, &exp, &rr.outcome, ctime, &loss);
             let mut second_spec = None;
             let mut judged = first_judged;
+            // server row: the crash fell into the very first creation of the database (nothing acknowledged, no MANIFEST
+            // yet). The engine-level recovery refuses such a directory by design; the server's own start-up decision
+            // (main()'s lines, cut out at build time) must then start -- an empty database -- not refuse for ever.
+            if judged.is_none() && exp.before_create_ack && matches!(&rr.outcome, Outcome::Refused(e) if e.contains("No MANIFEST found")) {
+                let (cfg2, img2, uni) = (plan.cfg.clone(), img.clone(), plan.universe);
+                let (code, msg) = on_fresh_thread(move || crate::c13::server_start_on_image(&cfg2, &img2, uni, &Model::new())).unwrap_or((3, String::new()));
+                sum.probe("server_startup_after_crash_during_first_creation", 1);
+                if code != 0 {
+                    let mut facts = BTreeMap::new();
+                    facts.insert("model".to_string(), v.name().to_string());
+                    facts.insert("entry".to_string(), "server_startup".to_string());
+                    facts.insert("inflight".to_string(), "create".to_string());
+                    facts.insert("error".to_string(), msg.split(" from ").next().unwrap_or("").chars().take(60).collect());
+                    judged = Some(Judged { clause: if code == 1 { "wrong_state".into() } else { "recovery_refused".into() }, message: format!("crash at effect {} ({}) during the first creation of the database: the server's start-up decision does not start an empty database afterwards: {}", i, v.name(), mask_name(&msg)), facts });
+                }
+            }
             if judged.is_none() {
                 // crash during that start-up, then start again: same outcome
                 let do_second = match only {
